@@ -38,6 +38,7 @@ type caseDesc struct {
 	State        string   `json:"client_state"`
 	StateSigner  string   `json:"state_signed_by"`
 	Skip         bool     `json:"skip_verification"`
+	CommonName   string   `json:"common_name,omitempty"`
 	Alien        string   `json:"record_x_has_non_ed25519_key,omitempty"`
 	Expect       string   `json:"model_says"`
 	Got          string   `json:"got,omitempty"`
@@ -190,6 +191,10 @@ func TestProp_Generate(t *testing.T) {
 		req := &types.GenerateServerCertificatesRequest{
 			CertificatePublicKeyPkix: actors[d.Claimed].CertPkix, NodeId: d.ReqNodeID, Nonce: nonce, NonceSignature: sign(d.NonceSigner, nonce), SkipVerification: d.Skip,
 		}
+		// the common name is the requester's to choose (the library's own placeholder
+		// name included); it has no bearing on verification
+		d.CommonName = rapid.SampledFrom([]string{"", "", "some-name", nodeenrollment.CommonDnsName}).Draw(t, "commonName")
+		req.CommonName = d.CommonName
 		var stateStruct *structpb.Struct
 		if d.State != "absent" {
 			stateStruct = vkit.UniqueStruct(fmt.Sprintf("%x", nonce))
